@@ -15,13 +15,9 @@ namespace detail
 		template<typename genType>
 		GLM_FUNC_QUALIFIER static genType call(genType Source, genType Multiple)
 		{
-			if (Source >= genType(0))
-				return Source - std::fmod(Source, Multiple);
-			else
-			{
-				genType Tmp = Source + genType(1);
-				return Tmp - std::fmod(Tmp, Multiple) - Multiple;
-			}
+			genType const Lower = compute_floorMultiple<true, true>::call(Source, Multiple);
+			genType const Diff = Source - Lower;
+			return Diff < Multiple - Diff ? Lower : Lower + Multiple;
 		}
 	};
 
@@ -31,13 +27,9 @@ namespace detail
 		template<typename genType>
 		GLM_FUNC_QUALIFIER static genType call(genType Source, genType Multiple)
 		{
-			if (Source >= genType(0))
-				return Source - Source % Multiple;
-			else
-			{
-				genType Tmp = Source + genType(1);
-				return Tmp - Tmp % Multiple - Multiple;
-			}
+			genType const Lower = compute_floorMultiple<false, false>::call(Source, Multiple);
+			genType const Diff = Source - Lower;
+			return Diff < Multiple - Diff ? Lower : Lower + Multiple;
 		}
 	};
 
@@ -47,13 +39,9 @@ namespace detail
 		template<typename genType>
 		GLM_FUNC_QUALIFIER static genType call(genType Source, genType Multiple)
 		{
-			if (Source >= genType(0))
-				return Source - Source % Multiple;
-			else
-			{
-				genType Tmp = Source + genType(1);
-				return Tmp - Tmp % Multiple - Multiple;
-			}
+			genType const Lower = compute_floorMultiple<false, true>::call(Source, Multiple);
+			genType const Diff = Source - Lower;
+			return Diff < Multiple - Diff ? Lower : Lower + Multiple;
 		}
 	};
 }//namespace detail
